@@ -32,50 +32,72 @@ def compare(events, real_results, model_results):
     return diffs
 
 
-def settle(events, real_results):
+def settle(machine):
     """Replace commands the model does not support by `nop` (re-running both sides) until the model
-    supports the whole program. Returns (events, real_results, model_results, dropped)."""
+    supports the whole program. Returns (machine, model_results, dropped) or (None, None, dropped)."""
     dropped = 0
+    events = machine.events
     for _ in range(12):
         ans = _model([events])[0]
         res = ans["results"]
         bad = [i for i, a in enumerate(res) if a.get("s") == "unsupported" or a.get("err") in ("unsupported", "badout")
                or "error" in a]
         if not bad:
-            return events, real_results, res, dropped
+            return machine, res, dropped
         i = bad[0]
         events = copy.deepcopy(events)
         if "c" in events[i]:
             if events[i]["c"]["op"] in ("beginFn", "endFn"):
-                return None, None, None, dropped      # give up on this program
+                return None, None, dropped      # give up on this program
             events[i] = NOP
         else:
-            events[i] = {"compile": []}
             del events[i]
         dropped += 1
         reset_globals()
-        m = interp.run_events(events)
-        events, real_results = m.events, m.results
-    return None, None, None, dropped
+        machine = interp.run_events(events)
+        events = machine.events
+    return None, None, dropped
+
+
+def reg_facts(machine):
+    """Facts about the program taken from the real objects in the registers (not from the MIR)."""
+    from nada_dsl.nada_types.scalar_types import ScalarType
+    from nada_dsl.nada_types.function import NadaFunction
+    lit_written, fn_ids, child_ids = {}, {}, {}
+    for r, v in enumerate(machine.regs):
+        if v is interp.DEAD:
+            continue
+        if isinstance(v, NadaFunction):
+            fn_ids[r] = v.id
+            continue
+        ch = getattr(v, "child", None)
+        cid = getattr(ch, "id", None)
+        if cid is None and hasattr(v, "id") and not hasattr(v, "child"):
+            cid = None
+        if cid is not None:
+            child_ids[r] = cid
+        if isinstance(v, ScalarType) and v.is_literal() and type(ch).__name__ == "Literal":
+            lit_written[cid] = (str(v.value), type(v).__name__)
+    return {"lit_written": lit_written, "fn_ids": fn_ids, "child_ids": child_ids}
 
 
 def run_programs(tag, n, max_cmds=25, corpus=()):
-    """Generate and run n programs (after the corpus). Yields dict records."""
+    """Generate and run n programs (after the corpus). Returns dict records."""
     out = []
     for ev in corpus:
         reset_globals()
         m = interp.run_events(copy.deepcopy(ev))
-        out.append(_record(("corpus", len(out)), m.events, m.results, {}))
+        out.append(_record(("corpus", len(out)), m, {}))
     for idx in range(n):
         m, dist = programs.generate(tag, idx, max_cmds=max_cmds)
-        out.append(_record((tag, idx), m.events, m.results, dist))
+        out.append(_record((tag, idx), m, dist))
     reset_globals()
     return out
 
 
-def _record(ident, events, real_results, dist):
-    ev2, rr, mr, dropped = settle(events, real_results)
-    if ev2 is None:
+def _record(ident, machine, dist):
+    m2, mr, dropped = settle(machine)
+    if m2 is None:
         return {"id": ident, "skipped": True, "dist": dist, "dropped": dropped}
-    return {"id": ident, "events": ev2, "real": rr, "model": mr, "dist": dist, "dropped": dropped,
-            "diffs": compare(ev2, rr, mr), "skipped": False}
+    return {"id": ident, "events": m2.events, "real": m2.results, "model": mr, "dist": dist, "dropped": dropped,
+            "diffs": compare(m2.events, m2.results, mr), "skipped": False, "facts": reg_facts(m2)}
